@@ -214,3 +214,5 @@ M("c14-shape", "C14", "decoder/bds/bds62.py", '    if alt == 0:\n        return 
 M("c14-commb", "C14", "decoder/bds/bds17.py", '    capacity = ["BDS" + allbds[i] for i in idx]', '    capacity = ["BDS" + allbds[i + (i == 23)] for i in idx]')
 M("c14-uplink", "C14", "decoder/uplink.py", '        IC = ic_switcher.get(codeLabel, "")\n\n    if UF in', '        IC = ic_switcher[codeLabel]\n\n    if UF in')
 M("c14-nacv", "C14", "decoder/adsb.py", "    try:\n        HFOMr = uncertainty.NACv[NACv][\"HFOMr\"]\n        VFOMr = uncertainty.NACv[NACv][\"VFOMr\"]\n    except KeyError:", "    try:\n        HFOMr = uncertainty.NACv[NACv][\"HFOMr\"]\n        VFOMr = uncertainty.NACv[NACv][\"VFOMr\"]\n    except IndexError:")
+M("c15-is60-regress", "C15", "decoder/bds/bds60.py", "        if alt is not None and alt != -999999 and alt != -1:", "        if alt is not None:")
+M("c15-tell-regress", "C15", "decoder/__init__.py", '        _print("Altitude", None if alt in (-999999, -1) else alt, "feet")', '        _print("Altitude", alt, "feet")')
